@@ -73,6 +73,9 @@ struct yorel::yomm2::detail::static_offsets<meth> {
 #endif
 };
 
+#ifndef TWO_CALLS
+#define TWO_CALLS 0
+#endif
 #define VSZ 4
 #define TSZ 16
 static std::uintptr_t vt[3][VSZ];
@@ -90,6 +93,30 @@ void verif_abort_hook() {
     verif_assert(0, 3);
 #endif
     verif_out(n_slot); verif_out(n_stride);
+}
+
+static std::uintptr_t call_once() {
+    int k = 3; double x = 0.5;
+#if ROUTE == 1
+#if ARITY == 1
+    auto pf = meth::fn.resolve(objs[0]);
+#elif ARITY == 2
+    auto pf = meth::fn.resolve(objs[0], k, objs[1]);
+#else
+    auto pf = meth::fn.resolve(objs[0], objs[1], x, objs[2]);
+#endif
+#else
+    P::static_vptr<Animal> = vt[0];  // objs[0] is an object of exactly the static type (id 1)
+    virtual_ptr<Animal, P> p0(objs[0]), p1(objs[1]), p2(objs[2]);
+#if ARITY == 1
+    auto pf = meth::fn.resolve(p0);
+#elif ARITY == 2
+    auto pf = meth::fn.resolve(p0, k, p1);
+#else
+    auto pf = meth::fn.resolve(p0, p1, x, p2);
+#endif
+#endif
+    return reinterpret_cast<std::uintptr_t>(pf);
 }
 
 extern "C" void cbmc_main() {
@@ -115,33 +142,28 @@ extern "C" void cbmc_main() {
         else vt[p][p == 1 ? S1 : S2] = g[p];
     }
     std::uintptr_t expected = ARITY == 1 ? 77 : ARITY == 2 ? table[g[0] + g[1] * T1] : table[g[0] + g[1] * T1 + g[2] * T2];
-    int k = 3; double x = 0.5;
-#if ROUTE == 1
-#if ARITY == 1
-    auto pf = meth::fn.resolve(objs[0]);
-#elif ARITY == 2
-    auto pf = meth::fn.resolve(objs[0], k, objs[1]);
-#else
-    auto pf = meth::fn.resolve(objs[0], objs[1], x, objs[2]);
-#endif
-#else
-    P::static_vptr<Animal> = vt[0];  // objs[0] is an object of exactly the static type (id 1)
-    virtual_ptr<Animal, P> p0(objs[0]), p1(objs[1]), p2(objs[2]);
-#if ARITY == 1
-    auto pf = meth::fn.resolve(p0);
-#elif ARITY == 2
-    auto pf = meth::fn.resolve(p0, k, p1);
-#else
-    auto pf = meth::fn.resolve(p0, p1, x, p2);
-#endif
-#endif
+    std::uintptr_t pf = call_once();
     // returned normally
 #if CHECKED
     verif_assert(all_equal, 4);   // wrong offsets were accepted
 #endif
-    verif_assert(reinterpret_cast<std::uintptr_t>(pf) == expected, 5);  // compiled-in offsets dispatch like the run-time ones
+    verif_assert(pf == expected, 5);  // compiled-in offsets dispatch like the run-time ones
     verif_assert(n_errors == 0, 6);
     if (all_equal) VERIF_COVER(901);
     verif_out(all_equal);
+#if TWO_CALLS
+    // a later update installs other offsets (the registry changed): the very same call site must be judged again
+    for (int i = 0; i < 2 * ARITY - 1; i++) { inst[i] = verif_range(0, 7); meth::fn.slots_strides[i] = inst[i]; }
+    all_equal = true;
+    for (int i = 0; i < ARITY; i++) if (inst[i] != st[i]) all_equal = false;
+    for (int i = 0; i < ARITY - 1; i++) if (inst[ARITY + i] != st[3 + i]) all_equal = false;
+    std::uintptr_t pf2 = call_once();
+#if CHECKED
+    verif_assert(all_equal, 4);   // offsets made stale by the later update were accepted
+#endif
+    verif_assert(pf2 == expected, 5);
+    verif_assert(n_errors == 0, 6);
+    verif_out(all_equal);
+#endif
     VERIF_COVER(999);
 }
